@@ -1,6 +1,6 @@
 (* C17 -- No input can crash or wedge a read. Property theorems only (the model-level half; signals,
    unsafe code and the kernel are outside the model: see the junk stream). *)
-From RL Require Import UData LineBuffer KillRing Editor EditorRun ProgressProofs DecoderProofs UndoEditor NoPanic ReadNoPanic.
+From RL Require Import UData LineBuffer KillRing Editor EditorRun ProgressProofs DecoderProofs UndoEditor NoPanic ReadNoPanic MainLoop.
 
 (* the byte decoder is total, for EVERY character stream and chunking, both timeout settings: it yields a
    key having consumed at least one character, or reports the end of the input / an undecodable byte;
@@ -84,6 +84,15 @@ Theorem C17_next_cmd_never_panics :
   end.
 Proof. intros U cfg fuel sea s HJ HN. exact (kq_next_cmd U cfg fuel sea s (conj HJ HN)). Qed.
 Print Assumptions C17_next_cmd_never_panics.
+
+(* A WHOLE READ NEVER PANICS -- for EVERY input stream (any characters, undecodable bytes, any chunking, messages from
+   other threads), BOTH edit modes, ANY key bindings, any prompt, initial text and kill ring contents -- when no helper
+   is installed and the history is empty (the completion and search sub-loops are then never entered). *)
+Theorem C17_read_never_panics :
+  forall (U : UData) (cfg : config), c_has_helper cfg = false ->
+  forall prompt initial kr inp, kr_inv kr -> fst (read_line U cfg prompt initial [] kr inp) <> OPanic.
+Proof. exact read_never_panics. Qed.
+Print Assumptions C17_read_never_panics.
 
 (* the state every read starts from satisfies J *)
 Theorem C17_initial_state_ok :
